@@ -206,6 +206,10 @@ func (mbox *Mailbox) flagsLocked() []imap.Flag {
 func (mbox *Mailbox) Expunge(w *imapserver.ExpungeWriter, uids *imap.UIDSet) error {
 	expunged := make(map[*message]struct{})
 	mbox.mutex.Lock()
+	if uids != nil {
+		static := mbox.staticUIDSetLocked(*uids)
+		uids = &static
+	}
 	for _, msg := range mbox.l {
 		if uids != nil && !uids.Contains(msg.uid) {
 			continue
@@ -470,16 +474,26 @@ func (mbox *MailboxView) staticNumSet(numSet imap.NumSet) imap.NumSet {
 		}
 		return static
 	case imap.UIDSet:
-		max := uint32(mbox.uidNext) - 1
-		var static imap.UIDSet
-		for _, r := range numSet {
-			staticNumRange((*uint32)(&r.Start), (*uint32)(&r.Stop), max)
-			static.AddRange(r.Start, r.Stop)
-		}
-		return static
+		return mbox.staticUIDSetLocked(numSet)
 	}
 
 	return numSet
+}
+
+// staticUIDSetLocked resolves the special symbol "*" in a UID set. "*" is the
+// highest UID in use, which is lower than the next UID minus one when the last
+// messages have been expunged.
+func (mbox *Mailbox) staticUIDSetLocked(uidSet imap.UIDSet) imap.UIDSet {
+	max := uint32(mbox.uidNext) - 1
+	if n := len(mbox.l); n > 0 {
+		max = uint32(mbox.l[n-1].uid)
+	}
+	var static imap.UIDSet
+	for _, r := range uidSet {
+		staticNumRange((*uint32)(&r.Start), (*uint32)(&r.Stop), max)
+		static.AddRange(r.Start, r.Stop)
+	}
+	return static
 }
 
 func staticNumRange(start, stop *uint32, max uint32) {
